@@ -1,3 +1,3 @@
 SPECIFICATION Spec
-INVARIANTS AllContextsCovered RunsCovered FoldCovered
+INVARIANTS AllContextsCovered RunsCovered FoldCovered BracesCovered
 CHECK_DEADLOCK FALSE
